@@ -103,6 +103,10 @@ def _expected_cpdag(members, p):
 
 
 def _compare(U, fn_name, arg, want, family, case, rec, ctx):
+    if (sum(want) + len(want)) % 5 == 2:
+        # history across routines: related routines asked about the same graph first, their results overwritten by the caller
+        _gc.scribble_related(U, np.asarray(arg), rec, ("order_edges", "pdag_to_dag", "mec", "maximally_orient", "only_directed", "skeleton",
+                                                        "pdag_to_cpdag" if fn_name == "dag_to_cpdag" else "dag_to_cpdag"))
     try:
         res = getattr(U, fn_name)(arg)
     except Exception as e:
@@ -201,6 +205,13 @@ def judge(family, case, rec):
         _compare(U, "dag_to_cpdag", A, want, family, case, rec, {"dag": _gc.rows(out)})
         if not (A == before).all():
             rec.violation("C08:input-mutated", family, case, "dag_to_cpdag modified its argument")
+        if (sum(out) + len(out)) % 3 == 0:
+            # a DAG is a PDAG whose only consistent extension is itself: pdag_to_cpdag must return the same essential graph
+            # (also for the real-weighted copies: DAG inputs may be weight matrices)
+            rec.count("pdag_to_cpdag:given-a-dag" + (":weighted" if family == "weighted" else ""))
+            _compare(U, "pdag_to_cpdag", A, want, family, case, rec, {"dag": _gc.rows(out)})
+            if not (A == before).all():
+                rec.violation("C08:input-mutated", family, case, "pdag_to_cpdag modified its argument")
     else:
         if family == "pdag":
             out = G.pdag_from_code(case["p"], case["code"])
